@@ -55,6 +55,15 @@ CHECKS["C08"] = (
     "DESIGN.md section 3, C08",
 )
 
+CHECKS["C18"] = (
+    "exhaustive enumeration of import histories of length 1 and 2 (fresh interpreter / fork from a cdd-free parent)",
+    "Every non-test module is imported first in a fresh interpreter, and every ordered pair of modules (all ~7.8k of them, in both tiers) "
+    "is imported in a process forked from a parent that holds no cdd module; the import must succeed and each module's public names "
+    "must equal those it has when imported alone. The thorough tier repeats every pair in a real subprocess.",
+    "fork from a cdd-free parent ~ fresh interpreter (validated by the thorough tier); histories longer than 2 are not explored",
+    "DESIGN.md section 3, C18",
+)
+
 PENDING_REASON = "check not built yet in this revision (planned, see DESIGN.md section 3); no claim is made"
 
 
